@@ -521,8 +521,9 @@ func shellSkeleton(f *ast.File, actions []string) string {
 	}
 	b.WriteString("\n(* Split: the pooled scanner is Reset to the argument before Scanner.Split and Complete *)\n")
 	fmt.Fprintf(&b, "Definition split_resets : bool := %s.\n", coqBool(resets))
-	for _, fn := range []string{"Scanner.Split", "Scanner.Each", "Scanner.Text"} {
+	for _, fn := range []string{"Scanner.Split", "Scanner.Each", "Scanner.Text", "Scanner.Err"} {
 		want := map[string]string{
+			"Scanner.Err":   "return s.err",
 			"Scanner.Split": "var tokens []string | for s.Next() { tokens = append(tokens, s.Text()) } | return tokens",
 			"Scanner.Each":  "for s.Next() { if !f(s.Text()) { return } }",
 			"Scanner.Text":  "return s.cur.String()",
@@ -535,6 +536,30 @@ func shellSkeleton(f *ast.File, actions []string) string {
 			sfail("skeleton of %s changed: found `%s`, expected `%s`", fn, strings.Join(got, " | "), want)
 		}
 	}
+
+	// ---------------- the buffered reader is used as a byte queue only: s.buf occurs exactly as
+	// s.buf.ReadByte() in Next, s.buf.Reset(r) in Reset and `return s.buf` in Rest.  (This is what
+	// reduces "the same tokens however the reader fragments its input" to bufio.Reader's contract:
+	// no Buffered/Peek/Discard/UnreadByte anywhere, so no decision depends on what has been read ahead.)
+	bufUses := map[string]int{}
+	for _, d := range f.Decls {
+		fd, ok := d.(*ast.FuncDecl)
+		if !ok || fd.Body == nil {
+			continue
+		}
+		ast.Inspect(fd.Body, func(n ast.Node) bool {
+			if se, ok := n.(*ast.SelectorExpr); ok && se.Sel.Name == "buf" {
+				if _, isIdent := se.X.(*ast.Ident); isIdent {
+					bufUses[fd.Name.Name]++
+				}
+			}
+			return true
+		})
+	}
+	if len(bufUses) != 3 || bufUses["Next"] != 1 || bufUses["Reset"] != 1 || bufUses["Rest"] != 1 {
+		sfail("skeleton changed: the buffered reader is used outside ReadByte in Next / Reset / return in Rest: %v", bufUses)
+	}
+	b.WriteString("\n(* checked: s.buf is used only as s.buf.ReadByte() in Next, s.buf.Reset(r) in Reset, return s.buf in Rest *)\n")
 
 	// ---------------- quotable
 	qb := bodyOf(f, "quotable")
